@@ -389,7 +389,9 @@ var fragFunctions = []string{"Sum", "SumBy", "IndexOf", "Contains", "Every", "So
 	// map.go, filter.go (C14)
 	"Keys", "Values", "MapValues", "MapKeys", "MapEvery", "MapSome", "MapContains", "MapUnique", "MapCollection",
 	"Find", "FindKey", "FindByKey", "Invert", "Pluck", "Pick", "PickBy", "Omit", "OmitBy", "PartitionMap", "SliceToMap",
-	"FilterMap", "FilterMapCollection", "Filter2DMapCollection"}
+	"FilterMap", "FilterMapCollection", "Filter2DMapCollection",
+	// find.go: the by-key extrema over slices of maps (C13)
+	"FindMinByKey", "FindMaxByKey", "ToSlice", "DuplicateWithIndex", "IntersectionBy", "Union", "Flatten"}
 
 type fragResult struct {
 	method   bool
